@@ -35,6 +35,12 @@ RULE = ("fft sizes 2..128 (thorough ..1024, odd and non powers of two "
         "channel memory >= 1 and cp > 0 and input length not a multiple of "
         "the used subcarriers (part chan) or cp > 0 and used < fft and length "
         "not a multiple (part ofdm); distinct = SHA-1 of the case description")
+RULE += (" Added after the white-box review: "
+         "optionally the object (and an equalizer) is used with a "
+         "first configuration before set_parameters, and the reported "
+         "response is asked for other FFT sizes first; path loss down "
+         "to 1e-18 ")
+
 LEVEL_TEXT = ("Generated-input search (Hypothesis, seeded, sharded) over OFDM "
               "configurations, input lengths and static tapped-delay-line "
               "channels against an inverse oracle (round trip), an exact "
